@@ -106,12 +106,11 @@ def _call(su, j=None):
     from TidalPy.toolbox.quick_tides import quick_dual_body_tidal_dissipation, quick_tidal_dissipation
     k = su.k if j is None else 1
     if su.dual:
-        with repo_call('quick_dual_body_tidal_dissipation'):
-            res = quick_dual_body_tidal_dissipation(**tc.dual_kwargs(su, j))
+        res = tc.call_repo('quick_dual_body_tidal_dissipation', quick_dual_body_tidal_dissipation, **tc.dual_kwargs(su, j))
         per = [res['host'], res['secondary']]
     else:
-        with repo_call('quick_tidal_dissipation'):
-            res = quick_tidal_dissipation(**tc.single_kwargs(su, su.bodies[0], j, derivatives=True))
+        res = tc.call_repo('quick_tidal_dissipation', quick_tidal_dissipation,
+                           **tc.single_kwargs(su, su.bodies[0], j, derivatives=True))
         per = [res]
     out = {'da': _full(res['semi_major_axis_derivative'], k), 'de': _full(res['eccentricity_derivative'], k), 'bodies': []}
     for r in per:
@@ -142,12 +141,15 @@ def evaluate(case):
         return discard('nonfinite_compliance', lab)
     c = Collector(labels=lab)
     c.nontrivial = bool(any(not b.sync for b in bodies) and np.any(su.e > 0.0))
+    retries0 = tc.TRANSIENT_RETRIES['count']
     try:
         out = _call(su)
     except RepoRaised as e:
         if any(tc.known_exception_class(b, ms, e.exc) for b, ms in zip(bodies, sums)):
             return discard('excluded_known_finding', lab)       # reported by C10
         raise
+    if tc.TRANSIENT_RETRIES['count'] != retries0:
+        c.label('numba_transient_retry')
     ctx = '%s l_max=%d trunc=%d rheologies=%r e=%r n=%r spins=%r obliquities=%r as_array=%r e_none=%r' % (
         case['kind'], su.l_max, su.trunc, [b.rheology for b in bodies], su.e.tolist(), su.n.tolist(),
         ['None' if b.sync else b.spin.tolist() for b in bodies], [None if b.obl is None else b.obl.tolist() for b in bodies],
